@@ -598,6 +598,7 @@ func runC14(c *Ctx, r *Rec) {
 	r.floor("D3-views", 3)
 	checkNoSecondLookup(c, r, "D3-view-values-from-entries")
 	checkResetCompleteness(c, r, "D1-reset-complete", mp)
+	checkTypeLockPairing(c, r, "D1-lock-released", mp)
 
 	// ---- D4 loops
 	for _, n := range []*types.Named{mp, cls} {
